@@ -455,6 +455,13 @@ REJECTS = {
     "check_region-length": lambda: vd.scatter_points((0.0, 1.0, 0.0), 3),
     "block_split-coord-shapes": lambda: vd.block_split((np.arange(4.0), np.arange(5.0)), spacing=1.0),
     # only the EXTRA coordinate disagrees (a missing value, a transposed array): the index arrays returned would address it wrongly
+    "rolling_window-region-west>east": lambda: vd.rolling_window((np.arange(6.0), np.arange(6.0) * 0.5), size=2.0, spacing=1.0, region=(5.0, 0.0, 0.0, 2.5)),
+    "rolling_window-region-south>north": lambda: vd.rolling_window((np.arange(6.0), np.arange(6.0) * 0.5), size=1.0, shape=(2, 2), region=(0.0, 5.0, 2.5, 0.0)),
+    "block_split-region-west>east": lambda: vd.block_split((np.arange(6.0), np.arange(6.0) * 0.5), spacing=1.0, region=(5.0, 0.0, 0.0, 2.5)),
+    "grid_coordinates-region-south>north": lambda: vd.grid_coordinates((0.0, 5.0, 2.5, 0.0), spacing=0.5),
+    "scatter_points-region-west>east": lambda: vd.scatter_points((5.0, 0.0, 0.0, 2.5), 4, random_state=0),
+    "inside-region-west>east": lambda: vd.inside((np.arange(6.0), np.arange(6.0) * 0.5), (5.0, 0.0, 0.0, 2.5)),
+    "BlockReduce-region-south>north": lambda: vd.BlockReduce(np.mean, spacing=1.0, region=(0.0, 5.0, 2.5, 0.0)).filter((np.arange(6.0), np.arange(6.0) * 0.5), np.arange(6.0)),
     "rolling_window-extra-coord-shape": lambda: vd.rolling_window((np.arange(6.0), np.arange(6.0) * 0.5, np.arange(5.0)), size=2.0, spacing=1.0),
     "rolling_window-extra-coord-transposed": lambda: vd.rolling_window(
         (np.arange(6.0).reshape(2, 3), np.arange(6.0).reshape(2, 3) * 0.5, np.arange(6.0).reshape(3, 2)), size=2.0, spacing=1.0),
